@@ -385,6 +385,7 @@ func (w *World) Body() func() {
 func (w *World) callShutdown(r *shutdownRec) {
 	r.called = true
 	r.start = verifrt.VNow()
+	statusAtCall := w.e.StatusForVerif()
 	r.err = w.e.Shutdown(context.Background())
 	r.end = verifrt.VNow()
 	r.returned = true
@@ -398,7 +399,17 @@ func (w *World) callShutdown(r *shutdownRec) {
 	// period of Shutdown is there to cover - scheduling slack, not a defect.)
 	// The same holds for a return with an error other than "engine is not running" (a second caller): the server gave up
 	// waiting although the configured exit wait time was not over.
-	notRunning := r.err != nil && strings.Contains(r.err.Error(), "not running")
+	// (Which call that is is told from the situation, not from the error's text: the engine was not running when the call
+	// began, or another Shutdown call is in progress or has succeeded.)
+	notRunning := false
+	if r.err != nil {
+		notRunning = statusAtCall != 2
+		for _, o := range w.shutdowns {
+			if o != r && o.called && (!o.returned || o.err == nil) {
+				notRunning = true
+			}
+		}
+	}
 	if !notRunning && r.slackFree && r.end-r.start < w.job.Sc.ExitWait {
 		for i, c := range w.conns {
 			if c == nil || !c.accepted || c.acceptAt >= r.start {
